@@ -93,7 +93,7 @@ def _g_after_join(ctx, b, bb):
 TOLERATED = [
     (r".*", r"(^|::)Progress::(print_status|add_total|add_done|update_progress|update_progress_internal)$",
      "cosmetic terminal output (progress display); failure to print must not fail the build", None),
-    (r"(^|::)print_dep_map$", r"^std::fmt::Write::write_fmt$",
+    (r"(^|::)print_dep_map(::\{closure#\d+\})*$", r"^std::fmt::Write::write_fmt$",
      "fmt::Write on a String cannot fail", None),
     (r"(::|<)Txtpp as std::ops::Drop>::drop$", r"^std::sync::mpsc::Receiver::<T>::try_recv$",
      "results still in flight after an error has already been returned are drained and ignored", _g_after_join),
@@ -101,7 +101,7 @@ TOLERATED = [
      "clean tolerates directive errors (README: clean succeeds on erroneous sources)", _g_clean_mode),
     (r"(^|::)IOCtx::write_temp_file$", r"(^|::)AbsPath::try_resolve$",
      "clean: a temp target that does not exist is simply not removed", _g_clean_mode),
-    (r"(^|::)Pp::<'a>::run_internal$", r"(^|::)Pp::<'a>::iterate_directive$",
+    (r"(^|::)Pp::<'a>::run_internal$", r"(^|::)iterate_directive$",
      "clean tolerates directive errors: the swallowed error is dropped", _g_clean_mode),
     (r"^txtpp::main$", r"^std::env::var$", "TXTPP_FILE unset is the normal case", None),
     (r"^txtpp::main$", r"^txtpp::txtpp$", "the error was already printed by txtpp(); main maps it to ExitCode::FAILURE (R04.5)", None),
